@@ -273,6 +273,9 @@ STAGES['C12']['quick'].append(
 STAGES['C12']['quick'].append(
     ('os-file-destinations', 'MimeBuild', cfg(MAXP='2', MAXE='1', MAXA='1', ENCS='{"qp", "8bit"}', SMIMES='{[key |-> "", inter |-> FALSE], [key |-> "ecdsa", inter |-> FALSE]}',
                                               FAULTS='{[kind |-> "osfile", slot |-> 0, when |-> ""]}', CCS='<<"crlf", "size900">>')))
+# a destination that takes every byte of a write call and reports an error all the same (io.Writer allows (len(p), err))
+STAGES['C12']['quick'].append(
+    ('complete-writes-with-error', 'MimeBuild', cfg(MAXP='2', MAXE='1', MAXA='1', ENCS='{"qp", "8bit"}', FAULTS='{[kind |-> "fullerr", slot |-> 0, when |-> ""]}', CCS='<<"crlf", "utf8">>')))
 # a producer that fails ONCE (its first invocation) and works afterwards: an unsigned message calls it once, a signed message calls it in the
 # signing render first - whichever render the failure hits, WriteTo must report it
 STAGES['C12']['quick'].append(
